@@ -101,6 +101,7 @@ def run(ctx: Context) -> None:
     ctx.rule('R15.2', "the recorded linear index and the wind_index argument are the loop's own enumerate index; the feature's geometry is the loop's polygon; one record and one shape per polygon", floor=6)
     ctx.rule('R15.3', "serialisers that round coordinates by default are given an explicit precision", floor=2)
     ctx.rule('R15.4', "WKT/WKB writers serialise the multipolygon of all cells and write it to the caller's path; GeoJSON is dumped from to_geojson(dataset)", floor=4)
+    ctx.rule('R15.5', "the export command opens the dataset as the library does and dispatches to the library writer of the requested or guessed format (shared with C20 R20.4/R20.5)", floor=4)
     ctx.assume("geojson, pyshp and shapely serialisers keep feature order; files are not read back (no execution)")
 
     tg = ctx.func(f"{GEO}.to_geojson")
@@ -179,6 +180,20 @@ def run(ctx: Context) -> None:
                 a = shps[0].args[0] if shps[0].args else None
                 ok_shape = isinstance(a, ast.Attribute) and a.attr == '__geo_interface__' and isinstance(a.value, ast.Name) and a.value.id == it['poly_var']
                 ctx.check('R15.2', ok_shape, "the shape written is the loop's polygon (full precision geo interface)", fi, shps[0])
+            default_size, where = _library_default('/venv/lib/python3*/site-packages/shapefile.py', 'field', 'size')
+            try:
+                default_size = int(default_size)
+            except (TypeError, ValueError):
+                default_size = 50
+            narrow = []
+            for c in method_calls(fi, 'field'):
+                sz = kwarg(c, 'size') or (c.args[2] if len(c.args) > 2 else None)
+                if sz is not None:
+                    v = const_value(sz, None)
+                    if not isinstance(v, int) or v < default_size:
+                        narrow.append(norm_text(c))
+            ctx.check('R15.2', not narrow, "attribute fields are not narrower than the library default, so a serialised index is never truncated", fi,
+                      fi.node, construct=f"explicitly narrowed dbf fields (default width {default_size}): {narrow or 'none'}")
             fields = [const_value(c.args[0], None) for c in method_calls(fi, 'field') if c.args]
             ctx.check('R15.2', {'linear_index', 'index'} <= set(fields), "the attribute table has linear_index and index fields", fi, fi.node,
                       construct=f"fields {fields}")
@@ -231,6 +246,9 @@ def run(ctx: Context) -> None:
         opens = [c for c in calls_in(wg) if dotted(c.func) == 'open']
         ok = ok and len(opens) == 1 and flow.canon(opens[0].args[0]) == ('param', wg.params[1])
     ctx.check('R15.4', ok, "write_geojson dumps to_geojson(dataset) to the caller's path", wg, dumps[0] if dumps else wg.node)
+    from . import c20
+    from .common import share_obligations
+    share_obligations(ctx, c20, {'R20.5', 'R20.4'}, 'R15.5', only=lambda ob: 'export_geometry' in ob.function or 'export-geometry' in ob.text or 'format' in ob.text)
     di = p.cls(f"{GEO}._dumpable_iterator")
     it_fi = di.methods.get('__iter__')
     ok = it_fi is not None and any(norm_text(r.value) == 'iter(self.gen)' for r in it_fi.returns())
@@ -252,6 +270,8 @@ VARIANTS = [
     V('C15', 'multipolygon-truthiness', _G, "        p for p in dataset.ems.polygons\n        if p is not None", "        p for p in dataset.ems.polygons\n        if p", 'R15.1'),
     V('C15', 'wkb-of-convex-hull', _G, "        f.write(shapely.to_wkb(_to_multipolygon(dataset)))", "        f.write(shapely.to_wkb(_to_multipolygon(dataset).convex_hull))", 'R15.4'),
     V('C15', 'wkt-more-rounding', _G, "        f.write(shapely.to_wkt(_to_multipolygon(dataset)))", "        f.write(shapely.to_wkt(_to_multipolygon(dataset), rounding_precision=3))", 'R15.3'),
+    V('C15', 'dbf-fields-narrowed', _G, "        writer.field('index', 'C')", "        writer.field('index', 'C', size=16)", 'R15.2'),
+    V('C15', 'cli-opens-undecoded', 'src/emsarray/cli/commands/export_geometry.py', "        dataset = emsarray.open_dataset(options.input_path)", "        dataset = emsarray.open_dataset(options.input_path, mask_and_scale=False)", 'R15.5'),
     # benign: repairing the known finding must make the check silent
     V('C15', 'benign-wkt-full-precision', _G, "        f.write(shapely.to_wkt(_to_multipolygon(dataset)))", "        f.write(shapely.to_wkt(_to_multipolygon(dataset), rounding_precision=-1))", None),
 ]
